@@ -1,0 +1,27 @@
+//go:build verif
+
+package tensor
+
+import (
+	"github.com/sahandsafizadeh/qeep/tensor/internal/cputensor"
+	"github.com/sahandsafizadeh/qeep/tensor/internal/gradtrack"
+	"github.com/sahandsafizadeh/qeep/tensor/internal/verifhook"
+)
+
+// VerifInspect re-exports cputensor.VerifInspect (read-only deep copy).
+func VerifInspect(t Tensor) (flat []float64, nesting []int, dims []int, rect bool, ok bool) {
+	return cputensor.VerifInspect(t)
+}
+
+// VerifGradState re-exports gradtrack.VerifState for a tensor's context.
+func VerifGradState(t Tensor) (tracked, bpdirty bool, gradient Tensor, targets []Tensor, ok bool) {
+	if t == nil {
+		return false, false, nil, nil, false
+	}
+	return gradtrack.VerifState(t.GradContext())
+}
+
+// VerifSetHandler installs (or, with nil, removes) the instrumentation handler.
+func VerifSetHandler(h func(site string)) {
+	verifhook.Handler = h
+}
